@@ -116,8 +116,26 @@ def total_sig(x=ds_dep, c=Option("C", 0)):
 
 ds_total_sig = dataset(total_sig)
 
+
+
+def body_cyc(a=Option("A", 0)):
+    return ("cyc", a)
+
+
+# a cyclic object graph: an overload of ds_cyc wraps a derivative of ds_cyc itself (derivatives share the overload table)
+ds_cyc = dataset(body_cyc, dispatch="D")
+
+
+def body_cyc_twice(v=ds_cyc.with_options({"D": "plain"})):
+    return ("twice", v, v)
+
+
+ds_cyc_twice = dataset(body_cyc_twice)
+ds_cyc.register("twice", ds_cyc_twice)
+ds_cyc.register("y", Option("C", "cyc-y"))
+
 DISPATCH_KEY = {"ds_ns": "NS.A"}  # (others dispatch on D)
-GRAPHS = {"ds_total": ds_total, "ds_total_sig": ds_total_sig, "ds_quiet": ds_quiet, "ds_late": ds_late, "ds_ns": ds_ns, "ns": NS, "typed": typed, "ds_a": ds_a, "ds_c": ds_c, "ds_main": ds_main, "ds_abstract": ds_abstract, "ds_derived": ds_derived, "expr_root": expr_root}
+GRAPHS = {"ds_cyc": ds_cyc, "ds_cyc_twice": ds_cyc_twice, "ds_total": ds_total, "ds_total_sig": ds_total_sig, "ds_quiet": ds_quiet, "ds_late": ds_late, "ds_ns": ds_ns, "ns": NS, "typed": typed, "ds_a": ds_a, "ds_c": ds_c, "ds_main": ds_main, "ds_abstract": ds_abstract, "ds_derived": ds_derived, "expr_root": expr_root}
 
 
 # decorator form (recorded finding: the name of the function now refers to the Dataset)
@@ -141,6 +159,7 @@ CORPUS = [
     {"E": "q", "C": [1, 2], "N1": 1},
     {"A": None, "C": False, "S": {"X": 0, "Y": 1}},
     {"D": "late", "E": "ee", "C": 1},
+    {"D": "twice", "A": 3},
     {"NS": {"P": 9, "SUB": {"R": "rr"}}, "A": "x"},
     {"NS": {"P": "{C}", "EXTRA": 1}, "C": 5},
 ]
